@@ -1,3 +1,4 @@
 pub mod gds;
+pub mod lef;
 pub mod rawlib;
 pub mod tetris;
